@@ -115,10 +115,19 @@ def scen_compare(ctx, M):
         secs_v = symdt.DyadicFloat(secs, k64, 6)
     else:
         secs_v = secs + k64 / 64.0
+    # advance_time_seconds by a fractional amount as well
+    ak = ctx.choice('adv_frac64', [0, 32, 63])
+    adv_s_us = adv_s * US + ak * 15625
+    if ak == 0:
+        adv_s_v = adv_s
+    elif ctx.sym:
+        adv_s_v = symdt.DyadicFloat(adv_s, ak, 6)
+    else:
+        adv_s_v = adv_s + ak / 64.0
     # every intermediate instant stays representable
     ctx.assume(AND(now + adv >= LO, now + adv <= HI,
-                   now + adv + adv_s * US >= LO,
-                   now + adv + adv_s * US <= HI,
+                   now + adv + adv_s_us >= LO,
+                   now + adv + adv_s_us <= HI,
                    now + secs_us >= 0, now + secs_us <= symdt.MAX_US))
     tu.set_time_override(mk_dt(ctx, now))
     try:
@@ -142,12 +151,12 @@ def scen_compare(ctx, M):
         tu.advance_time_delta(delta)
         ctx.check('C12-advance-delta',
                   h.veq(us_of(ctx, tu.utcnow()) == now + adv, True))
-        tu.advance_time_seconds(adv_s)
+        tu.advance_time_seconds(adv_s_v)
         ctx.check('C12-advance-seconds',
-                  h.veq(us_of(ctx, tu.utcnow()) == now + adv + adv_s * US,
+                  h.veq(us_of(ctx, tu.utcnow()) == now + adv + adv_s_us,
                         True))
         ctx.check('C12-utcnow-ts-after-advance', h.veq(
-            tu.utcnow_ts() == (now + adv + adv_s * US - symdt.EPOCH_US)
+            tu.utcnow_ts() == (now + adv + adv_s_us - symdt.EPOCH_US)
             // US, True))
     finally:
         tu.clear_time_override()
